@@ -1594,10 +1594,15 @@ class NetCDFWrite(IOWrite):
                 "geometry_dimension"
             ]
 
-            if geometry_dimension == coord_ncdimensions[0]:
+            if geometry_dimension == coord_ncdimensions[
+                0
+            ] and self._geometry_partition(coord, bounds) == g[
+                "geometry_encoding"
+            ][ncvar].get("partition"):
                 # The node coordinate variable already exists, and the
                 # corresponding encoding variables span the correct
-                # dimension.
+                # dimension and divide the nodes into the same cells,
+                # parts and interior rings.
                 create = False
 
                 # We need to log the original Bounds variable as being
@@ -1611,8 +1616,8 @@ class NetCDFWrite(IOWrite):
             else:
                 # The node coordinate variable already exists, but the
                 # corresponding encoding variables span the wrong
-                # dimension => we have to create a new node
-                # coordinates variable.
+                # dimension, or divide the nodes differently => we
+                # have to create a new node coordinates variable.
                 create = True
 
         if create:
@@ -1684,6 +1689,12 @@ class NetCDFWrite(IOWrite):
             )
             encodings.update(ir_encodings)
 
+            # Record how the nodes are divided into cells, parts and
+            # interior rings, so that the variables are only shared
+            # with a coordinate construct that divides them in the
+            # same way.
+            encodings["partition"] = self._geometry_partition(coord, bounds)
+
             g["geometry_encoding"][ncvar] = encodings
 
             # We need to log the original Bounds variable as being in
@@ -1699,6 +1710,49 @@ class NetCDFWrite(IOWrite):
             g["bounds"][coord_ncvar] = ncvar
 
         return {"nodes": ncvar}
+
+    def _geometry_partition(self, coord, bounds):
+        """How geometry nodes are divided into cells, parts and rings.
+
+        Two coordinate constructs whose node coordinates are equal
+        when flattened may only share their netCDF node coordinates,
+        node count, part node count and interior ring variables if
+        they also have the same partition.
+
+        :Parameters:
+
+            coord:
+                The coordinate construct.
+
+            bounds:
+                The bounds of the coordinate construct, that contain
+                the node coordinates.
+
+        :Returns:
+
+            `tuple`
+                The number of nodes in each part of each cell
+                (including the zero counts of the parts that a cell
+                does not have), and the interior ring flags of the
+                parts (`None` if there is no interior ring variable).
+
+        """
+        array = self.implementation.get_array(
+            self.implementation.get_data(bounds)
+        )
+        counts = np.ma.count(array, axis=-1).tolist()
+
+        interior_ring = self.implementation.get_interior_ring(coord)
+        if interior_ring is not None:
+            data = self.implementation.get_data(interior_ring, None)
+            if data is not None:
+                interior_ring = self._numpy_compressed(
+                    self.implementation.get_array(data)
+                ).tolist()
+            else:
+                interior_ring = None
+
+        return (counts, interior_ring)
 
     def _write_node_count(
         self, f, coord, bounds, coord_ncdimensions, encodings
